@@ -542,7 +542,39 @@ pub fn gen_route(w: &World, s: &mut Src, prof: &Profile) -> Step {
         _ => Some(0),
     };
     let to = if s.chance(2, 5) { Some(who(w, s)) } else { None };
-    route_step(w, &actor, &hops, amt, minimum, to)
+    let mut st = route_step(w, &actor, &hops, amt, minimum, to);
+    attach_extra_route_coin(w, s, prof, &hops, &mut st);
+    st
+}
+
+/// Funds game on the router's native entry: besides the input, the call attaches a coin of another native
+/// denom (preferably one the route trades, so that a hop finds it in the router). Such a coin is the
+/// trader's own money parked in the router; no pair may receive it unless a hop offers that denom.
+pub fn attach_extra_route_coin(w: &World, s: &mut Src, prof: &Profile, hops: &[(usize, usize)], st: &mut Step) {
+    if st.funds.len() != 1 || !s.chance(prof.extra_ask_16 as u64, 16) {
+        return;
+    }
+    let input = st.funds[0].denom.clone();
+    let mut cands: Vec<String> = vec![];
+    for (p, _) in hops {
+        for a in w.pairs[*p].infos.iter() {
+            if let AssetInfo::NativeToken { denom } = a {
+                if *denom != input && !cands.contains(denom) {
+                    cands.push(denom.clone());
+                }
+            }
+        }
+    }
+    if cands.is_empty() || s.chance(1, 4) {
+        cands = w.natives.iter().filter(|d| **d != input).cloned().collect();
+    }
+    if cands.is_empty() {
+        return;
+    }
+    let d = cands[s.idx(cands.len())].clone();
+    let width = 1 + s.below(70) as u32;
+    let amt = 1 + s.bits_u128(width);
+    st.funds.push(Coin { denom: d, amount: Uint128::new(amt) });
 }
 
 pub fn gen_allowance(w: &World, s: &mut Src, _prof: &Profile) -> Step {
@@ -835,7 +867,16 @@ pub fn without_minimum(step: &Step) -> Step {
 pub fn route_net_growth(rec: &StepRecord, ops: &[SwapOperation], delivered: &(AssetInfo, u128), sender: &str, receiver: &str) -> Option<i128> {
     let last = ops.last()?;
     let SwapOperation::HaloSwap { ask_asset_info, .. } = last;
-    let paid = if sender == receiver && delivered.0 == *ask_asset_info { delivered.1 as i128 } else { 0 };
+    let paid: i128 = if sender != receiver {
+        0
+    } else if let AssetInfo::NativeToken { denom } = ask_asset_info {
+        // every attached coin of that denom (the input and any further coin)
+        rec.step.funds.iter().filter(|c| c.denom == *denom).map(|c| c.amount.u128() as i128).sum()
+    } else if delivered.0 == *ask_asset_info {
+        delivered.1 as i128
+    } else {
+        0
+    };
     Some(rec.delta(ask_asset_info, receiver) + paid)
 }
 
@@ -895,7 +936,9 @@ pub fn special_routes(w: &World, s: &mut Src, prof: &Profile, gs: &mut GenState,
         });
     }
     // reference delivery D: the same route without minimum_receive on a fork of this world
-    let plain = route_step(w, &actor, &hops, amt, None, to.clone());
+    let mut plain = route_step(w, &actor, &hops, amt, None, to.clone());
+    attach_extra_route_coin(w, s, prof, &hops, &mut plain);
+    let funds = plain.funds.clone();
     let ops = route_operations(w, &hops);
     let first = w.pairs[hops[0].0].infos[hops[0].1].clone();
     let receiver = to.clone().unwrap_or_else(|| actor.clone());
@@ -915,7 +958,9 @@ pub fn special_routes(w: &World, s: &mut Src, prof: &Profile, gs: &mut GenState,
         },
         None => if s.bool() { Some(s.bits_u128(40)) } else { None },
     };
-    Some(route_step(w, &actor, &hops, amt, minimum, to))
+    let mut st = route_step(w, &actor, &hops, amt, minimum, to);
+    st.funds = funds;
+    Some(st)
 }
 
-pub const ROUTER: Profile = Profile { name: "router", w: [7, 2, 5, 4, 2, 0, 14, 0, 0, 0], adversarial_16: 0, extra_ask_16: 0, funds_games_16: 0, max_pairs: 5, connected: true, hostile: false, special: Some(special_routes) };
+pub const ROUTER: Profile = Profile { name: "router", w: [7, 2, 5, 4, 2, 0, 14, 0, 0, 0], adversarial_16: 0, extra_ask_16: 2, funds_games_16: 0, max_pairs: 5, connected: true, hostile: false, special: Some(special_routes) };
